@@ -172,11 +172,17 @@ def oracle(ctx, o, first_only=False):
                     todo.append((n, dict(base, ident=iv)))
         if n == "fshp":
             todo += [(n, dict(base, variant=v)) for v in (0, 1, 2, 3) if v != base.get("variant")]
-    for name, forced in todo:
+    # formats whose string grows with the password or is made of several independently computed parts: a password long enough to fill more
+    # than one part (so that a string cut at a part boundary is among the mutants)
+    LONG = b"password and a long tail 0123456789"
+    todo = [t + (None,) for t in todo] + [(n, None, LONG) for n in ("bigcrypt", "crypt16", "lmhash", "des_crypt", "bsdi_crypt", "mssql2000", "oracle10") if n in names]
+    for name, forced, long_secret in todo:
         h = vc.handler(name)
         hh = vc.using(h, forced if forced is not None else vc.cheap_settings(h, rng))
         ck = vc.ctx_kwds(h)
-        secret = b"password"
+        secret = long_secret or b"password"
+        if name in ("cisco_pix", "cisco_asa"):
+            secret = secret[:16]
         try:
             hs = hh.hash(secret, **ck)
         except Exception:  # noqa: BLE001
@@ -184,6 +190,13 @@ def oracle(ctx, o, first_only=False):
         slow = name in fc.EXPENSIVE or name in ("sun_md5_crypt", "scrypt")
         muts = structural_mutants(hs, rng, ctx.thorough)
         always = [hs + "x", hs + hs, hs + "$", hs + "\n", hs + " ", " " + hs, hs[:-1], hs[:-1] + ("A" if hs[-1:] != "A" else "B"), hs.swapcase()]
+        # cut at every multiple of 11 / 16 / 32 characters counted from the end and from the start (block-structured checksums), and halves
+        always += [hs[:-k] for k in (11, 16, 22, 32, 33, 40) if k < len(hs)] + [hs[:k] for k in (13, 16, 24, 32, 35) if k < len(hs)] + [hs[: len(hs) // 2]]
+        # a longer salt / settings field: extra characters inserted before each separator and before the checksum
+        seps = [i for i, c in enumerate(hs) if c in "$,"]
+        for i in seps[-3:]:
+            for extra in ("X", "XYZ", "a1b2c3d4", hs[max(0, i - 1):i]):
+                always.append(hs[:i] + extra + hs[i:])
         if slow:
             muts = rng.sample(muts, min(len(muts), 60 if not ctx.thorough else 400))
         elif ctx.thorough and len(muts) > 500:
@@ -247,6 +260,35 @@ def oracle(ctx, o, first_only=False):
         chk(name + ":altered-never-verifies", same, inp, "verified", "only a re-encoding of the same settings and digest verifies")
         if fails and first_only:
             return fails
+    # ---- a cost the platform's KDF cannot take (hashlib reads it as a C int): a stored hash carrying one is an invalid hash, i.e. a value
+    #      error — never the KDF's OverflowError.  Only values above 2^31-1 are tried (they are refused at once; smaller ones would really run).
+    import re as _re
+
+    huge = ("2147483648", "3000000000", "4294967295", "4294967296", "2000000000000", "99999999999999999999")
+    for name in names:
+        h = vc.handler(name)
+        base_name = vc.BASE.get(name, name) if hasattr(vc, "BASE") else name
+        if "pbkdf2" not in base_name and base_name not in ("scram",):
+            continue
+        ck = vc.ctx_kwds(h)
+        try:
+            hs = vc.using(h, vc.cheap_settings(h, rng)).hash(b"password", **ck)
+        except Exception:  # noqa: BLE001
+            continue
+        m0 = _re.search(r"(?<![0-9A-Za-z])\d{1,6}(?=[$.])", hs)
+        if not m0:
+            continue
+        for v in huge:
+            for vv in ((v, format(int(v), "x")) if base_name in ("cta_pbkdf2_sha1", "dlitz_pbkdf2_sha1") else (v,)):
+                m = hs[:m0.start()] + vv + hs[m0.end():]
+                inp = {"op": "huge-cost", "hasher": name, "mutant": m}
+                for fn, tag in ((lambda: h.verify(b"password", m, **ck), "verify"), (lambda: h.needs_update(m), "needs_update"), (lambda: h.identify(m), "identify")):
+                    with_deadline = vc.safe_call(fn)
+                    st, r = with_deadline
+                    ok = (st == "ok" and r in (True, False) and not (tag == "verify" and r is True)) or (st == "err" and tag != "identify" and vc.is_clean_error(r))
+                    chk(name + ":huge-cost-" + tag, ok, inp, (type(r).__name__ + ": " + str(r)[:80]) if st == "err" else r, "False / ValueError")
+        if fails and first_only:
+            return fails
     # libpass hashers
     from libpass.hashers.bcrypt import BcryptHasher, BcryptSHA256Hasher
     from libpass.hashers.pbkdf2 import PBKDF2SHA256Handler, PBKDF2SHA512Handler
@@ -254,7 +296,10 @@ def oracle(ctx, o, first_only=False):
 
     for hh in (SHA256Hasher(rounds=1000), SHA512Hasher(rounds=1000), PBKDF2SHA256Handler(rounds=2), PBKDF2SHA512Handler(rounds=2), BcryptHasher(rounds=4), BcryptSHA256Hasher(rounds=4)):
         hs = hh.hash("password")
-        for m in structural_mutants(hs, rng, ctx.thorough)[: (80 if not ctx.thorough else None)]:
+        lp_muts = structural_mutants(hs, rng, ctx.thorough)[: (80 if not ctx.thorough else None)]
+        if "PBKDF2" in type(hh).__name__:
+            lp_muts = list(lp_muts) + [hs.replace("$2$", "$" + v + "$", 1) for v in huge]
+        for m in lp_muts:
             inp = {"op": "libpass-mutant", "hasher": type(hh).__name__, "original": hs, "mutant": m}
             for fn, tag in ((lambda: hh.identify(m), "identify"), (lambda: hh.needs_update(m), "needs_update")):
                 st, r = vc.safe_call(fn)
@@ -307,6 +352,13 @@ def replay(ctx, inp):
             return {"fails": False, "observed": "parsed"}
         except Exception as e:  # noqa: BLE001
             return {"fails": not isinstance(e, ValueError), "observed": type(e).__name__ + ": " + str(e)[:100]}
+    if op == "huge-cost":
+        h = vc.handler(inp["hasher"])
+        try:
+            r = h.verify(b"password", inp["mutant"], **vc.ctx_kwds(h))
+            return {"fails": r is True, "observed": r}
+        except Exception as e:  # noqa: BLE001
+            return {"fails": not vc.is_clean_error(e), "observed": type(e).__name__ + ": " + str(e)[:100]}
     if op == "lenient-reencodings":
         from passlib.hash import bsdi_crypt, pbkdf2_sha256, sha1_crypt
 
